@@ -210,7 +210,8 @@ class FollowLinks(Suite):
         # (on a disk source the text of such a pattern is then looked up as a PATH: when an entry is really named like that and is a
         # cyclic link, lstat through it fails with ELOOP and FollowLinks returns the error)
         "F12": lambda op, impl, model: model.get("midwild") and
-        (impl.get("out") == model.get("m") or (op["src"]["kind"] == "disk" and "too many levels of symbolic links" in str(impl.get("ferr")))) and
+        (impl.get("out") == model.get("m") or (op["src"]["kind"] == "disk" and "too many levels of symbolic links" in str(impl.get("ferr")))
+         or (op["src"]["kind"] == "disk" and not impl.get("ferr") and FollowLinks._pattern_is_a_name(op))) and
         (model.get("spec_nomid") is True or model.get("spec_sep_nomid") is True or model.get("spec_keyed_nomid") is True),
         # F32: a link whose resolution text has a component with a pattern metacharacter, implementation = model, and the variant of
         # the model that takes link-target components literally (shared, fresh or keyed memo) meets the reference
